@@ -61,3 +61,37 @@ Example C13_guard_satisfiable :
              ORename 0 "a"; OExtend [("b", 4%N); ("d", 5%N)]; OSortBy CNameDesc; OTruncate 2; OPop].
 Proof. simpl. repeat split; try tauto; try (intros [H|H]; try discriminate; tauto);
        repeat constructor; simpl; intuition discriminate. Qed.
+
+(* "names that were removed or renamed away are not [reachable]", per way of leaving the list:
+   afterwards get = None, contains_key = false, index = None for that name *)
+Theorem C13_removed_by_name_is_gone :
+  forall l k l' o, Inv l -> step l (OSwapRemove k) = Ok (l', o) -> gone l' k.
+Proof. exact removed_by_name_gone. Qed.
+Print Assumptions C13_removed_by_name_is_gone.
+
+Theorem C13_removed_by_index_is_gone :
+  forall l i it l' o, Inv l -> nth_error (items l) i = Some it ->
+  step l (OSwapRemoveIdx i) = Ok (l', o) -> o = OItem (Some it) /\ gone l' (iname it).
+Proof. exact removed_by_index_gone. Qed.
+Print Assumptions C13_removed_by_index_is_gone.
+
+Theorem C13_popped_is_gone :
+  forall l l' it, Inv l -> step l OPop = Ok (l', OItem (Some it)) -> gone l' (iname it).
+Proof. exact popped_gone. Qed.
+Print Assumptions C13_popped_is_gone.
+
+(* rename to a fresh name: the old name is gone, the new name designates the same position and payload *)
+Theorem C13_renamed_away_is_gone :
+  forall l i it new l' o, Inv l -> nth_error (items l) i = Some it ->
+  ~ In new (names (items l)) -> step l (ORename i new) = Ok (l', o) ->
+  gone l' (iname it) /\ il_index l' new = Some i /\ il_get l' new = Ok (Some (new, snd it)).
+Proof. exact renamed_away_gone. Qed.
+Print Assumptions C13_renamed_away_is_gone.
+
+(* non-vacuity: the last element removed by name from a two-element list, evaluated *)
+Example C13_gone_evaluated :
+  match run il_new [OPush ("a", 1%N); OPush ("b", 2%N); OSwapRemove "b"; ORename 0 "c"] with
+  | Ok l => (il_index l "a", il_index l "b", il_index l "c", il_len l) = (None, None, Some 0, 1)
+  | _ => False
+  end.
+Proof. vm_compute. reflexivity. Qed.
